@@ -60,7 +60,10 @@ elif req['mode'] == 'collection':
     from mosromgr.moscollection import MosCollection
     for item in req['items']:
         try:
-            mc = MosCollection.from_strings(item['docs'], allow_incomplete=item['inc'])
+            if item['inc'] is None:
+                mc = MosCollection.from_strings(item['docs'])                  # the default: incompleteness is not allowed
+            else:
+                mc = MosCollection.from_strings(item['docs'], allow_incomplete=item['inc'])
             out.append(['ok', mc.ro.message_id, [[mr.message_id, mr.mos_type.__name__] for mr in mc.mos_readers], type(mc.ro).__name__])
         except Exception as e:
             out.append(['err', type(e).__name__])
